@@ -125,7 +125,6 @@ C18Step(m, e) ==
         w == WalkReplay(e.out, 1, rq.begin, S, hi, m)
         tail == e.out # <<>> /\ e.out[Len(e.out)].type = "4" /\ e.out[Len(e.out)].gapfill
     IN IF ~(e.e = "Recv" /\ e.in # <<>> /\ rq.type = "2" /\ rq.valid /\ rq.seq = e.pre.nr /\ m.logged /\ ~e.pre.shutdown
-            /\ e.pre.st \in {1, 9, 12}        \* a replay is not started while another one is in progress
             /\ rq.begin >= 1 /\ (rq.end = 0 \/ rq.end >= rq.begin))
        THEN [ok |-> TRUE, why |-> "", sig |-> "", m |-> m]
        ELSE IF ~w.ok THEN [ok |-> FALSE, why |-> w.why, sig |-> w.sig, m |-> m]
@@ -310,6 +309,33 @@ C21Step(m, e) ==
                   sig |-> "terminated:" \o w \o ":after:" \o TaintSig(t2), m |-> m2]
             ELSE [ok |-> TRUE, why |-> "", sig |-> "", m |-> m2]
 
+\* ---- C25 (concurrent senders) ----------------------------------------------------------------------------
+\* SendPar{threads, per}: `threads` application threads each sent `per` messages (ids t*1000+k) through one
+\* session at the same time; out = everything read from the socket, in wire order.
+C25Step(m, e) ==
+    IF e.e # "SendPar" THEN [ok |-> TRUE, why |-> "", sig |-> "", m |-> m]
+    ELSE LET news == SelectSeq(e.out, LAMBDA o : IsNew(o))
+             want == {t * 1000 + k : t \in 1..e.threads, k \in 1..e.per}
+             \* consecutive from the first new message of the call (in the pipelined model the counter is advanced
+             \* by the writer thread, so the number observed before the call is not a reliable base)
+             seqbad == {i \in DOMAIN news : news[i].seq # news[1].seq + i - 1}
+             apps == SelectSeq(news, LAMBDA o : IsApp(o))
+             ids == {apps[i].id : i \in DOMAIN apps}
+             dup == \E i, j \in DOMAIN apps : i < j /\ apps[i].id = apps[j].id
+             storebad == {i \in DOMAIN news : IsApp(news[i]) /\ ~\E j \in StoredAt(e.post, news[i].seq) :
+                                                   e.post.stored[j].h = news[i].h /\ e.post.stored[j].len = news[i].len}
+         IN IF seqbad # {} THEN [ok |-> FALSE, why |-> "sequence_numbers_not_unique_consecutive",
+                                 sig |-> "seq:" \o e.pmodel \o (IF \E i, j \in DOMAIN news : i < j /\ news[i].seq = news[j].seq
+                                                                THEN ":duplicate_number" ELSE ":gap_or_order"), m |-> m]
+            ELSE IF dup THEN [ok |-> FALSE, why |-> "message_transmitted_twice", sig |-> "twice:" \o e.pmodel, m |-> m]
+            ELSE IF ids # want \/ Len(apps) # Cardinality(want)
+                 THEN [ok |-> FALSE, why |-> "message_not_transmitted", sig |-> "missing:" \o e.pmodel, m |-> m]
+            ELSE IF HasPersist(m) /\ storebad # {}
+                 THEN [ok |-> FALSE, why |-> "stored_copy_is_not_the_transmitted_message", sig |-> "store:" \o e.pmodel, m |-> m]
+            ELSE IF news # <<>> /\ e.post.ns # news[Len(news)].seq + 1
+                 THEN [ok |-> FALSE, why |-> "next_send_number_lost_updates", sig |-> "counter:" \o e.pmodel, m |-> m]
+            ELSE [ok |-> TRUE, why |-> "", sig |-> "", m |-> m]
+
 \* ---- bookkeeping common to all properties ---------------------------------------------------------
 RECURSIVE AddSent(_, _, _)
 AddSent(sent, out, i) ==
@@ -343,6 +369,7 @@ MonStep(m, e) ==
                     [] Prop(m) = "C19" -> C19Step(m, e)
                     [] Prop(m) = "C20" -> C20Step(m, e)
                     [] Prop(m) = "C21" -> C21Step(m, e)
+                    [] Prop(m) = "C25" -> C25Step(m, e)
                     [] Prop(m) = "C22" -> C22Step(m, e)
                     [] Prop(m) = "C23" -> C23Step(m, e)
                     [] OTHER -> [ok |-> TRUE, why |-> "", sig |-> "", m |-> m]
